@@ -48,7 +48,9 @@ def shakespeare_tok(case):
   if case.get('all_bytes'):
     # every single byte value (control bytes equal to the reserved label ids included), alone and between two letters
     pool = [bytes([b]) for b in range(256)] + [b'a' + bytes([b]) + b'd' for b in range(256)]
-  lists = [case['snippets']] if 'snippets' in case else itertools.product(range(len(pool)), repeat=k)
+  lists = [case['snippets']] if 'snippets' in case else list(itertools.product(range(len(pool)), repeat=k))
+  if 'snippets' not in case:
+    lists = lists + lists[::-1]  # history independence: every list is judged again after the lists that followed it
   evals = 0
   outs = set()
   for idxs in lists:
